@@ -107,7 +107,7 @@ class Contract:
                  locals=None, modifies=(), spec_funcs=None, ufuns=None, types=None, raises=None, ghost_at=None,
                  assert_at=None, lifted_asserts=(), alias_ok=(), pure=False, fragment=None, notes=None, module_env=None,
                  decreases=None, axioms=(), trusted=False, post_hints=(), exc_ensures=None, assume_at=None, unroll=None,
-                 variant="", outputs=None, call_ghost=None, defaults=None):
+                 variant="", outputs=None, call_ghost=None, defaults=None, defs=None):
         self.file, self.func = file, func
         self.params = dict(params)
         self.returns = returns
@@ -140,6 +140,7 @@ class Contract:
         self.outputs = list(outputs or [])
         self.call_ghost = dict(call_ghost or {})
         self.defaults = dict(defaults or {})
+        self.defs = dict(defs or {})  # name -> (argtypes, rettype, lambda source): function symbol with a definitional axiom
 
     @property
     def key(self):
@@ -528,6 +529,10 @@ class Engine:
     def equals(self, a, b, st, node):
         if isinstance(a.ty, NoneT) or isinstance(b.ty, NoneT):
             return self.is_same(a, b, st, node) if isinstance(b.ty, NoneT) else self.is_same(b, a, st, node)
+        if isinstance(a.ty, ListT) and isinstance(b.ty, EmptyListT):
+            return a.ty.len(a.t) == 0
+        if isinstance(b.ty, ListT) and isinstance(a.ty, EmptyListT):
+            return b.ty.len(b.t) == 0
         if isinstance(a.ty, ListT) and isinstance(b.ty, ListT) and a.ty == b.ty:
             # list equality: same length and same elements
             i = z3.FreshConst(z3.IntSort(), "eqi")
@@ -944,7 +949,12 @@ class Engine:
                 if decl is not None:
                     val = self.coerce(val, decl, st, node, "assignment to " + tgt.id)
             elif decl is not None and decl != val.ty:
-                val = self.coerce(val, decl, st, node, "assignment to " + tgt.id)
+                try:
+                    val = self.coerce(val, decl, st, node, "assignment to " + tgt.id)
+                except Unsupported:
+                    if not isinstance(val.ty, (ListT, SetT, DictT)):
+                        raise
+                    # the name is re-bound to a container of another kind (e.g. offsets = sorted(offsets)): plain re-binding
             st.env[tgt.id] = val
             if tgt.id in st.defd:
                 st.defd[tgt.id] = z3.BoolVal(True)
@@ -1633,6 +1643,27 @@ class Engine:
         st.old = dict(st.env)
         return st
 
+    def install_defs(self, st):
+        """definitional extensions: f(args) == body for all args (conservative; body may mention the function's parameters only
+        through the entry state, which is what the definitions are for: naming a deep term)"""
+        for name, (argtys, retty, src) in self.c.defs.items():
+            f = self.uf("def_" + name, argtys, retty)
+            lam = ast.parse(src.strip(), mode="eval").body
+            params = [a.arg for a in lam.args.args]
+            vs = [Val(z3.FreshConst(t.sort(), "d_" + p), t) for p, t in zip(params, argtys)]
+            s2 = st.copy()
+            for p, v in zip(params, vs):
+                s2.env[p] = v
+            self.in_spec += 1
+            try:
+                body = self.ev(lam.body, s2)
+            finally:
+                self.in_spec -= 1
+            body = self.coerce(body, retty, s2, None, "definition " + name)
+            self.global_axioms["def:" + name] = z3.ForAll([v.t for v in vs], f(*[v.t for v in vs]) == body.t)
+            self.c.ufuns[name] = (argtys, retty)
+            self.ufs[name] = self.ufs["def_" + name]
+
     def run(self):
         c = self.c
         body = self.fragment_body()
@@ -1642,6 +1673,7 @@ class Engine:
         self.in_ghost = False
         st = self.initial_state()
         spec = SpecEnv(self, c, None)
+        self.install_defs(st)
         for r in c.requires:
             st.assume(spec.ev_bool(r, st))
         for a in c.axioms:
